@@ -4,3 +4,7 @@ import PhyloModel.Props.C15
 #print axioms C15.step_monotone_nonnegative
 #print axioms C15.weighted_mean_ge
 #print axioms C15.min_search_order
+#print axioms C15.step_refines
+#print axioms C15.step_total
+#print axioms C15.upgma_tree
+#print axioms C15.upgma_recovers_ultrametric
